@@ -43,12 +43,20 @@ def rebuild_with_keyword_calls(c, seed=0):
     return out, stats
 
 
-def assemble_from_objects(prog, native=None):
+def assemble_from_objects(prog, native=None, seed=None):
     """The circuit of a model program put together from the constructors of the core classes (Circuit, Register,
     BlockStatement, LoopStatement, gate_def(...)) -- no parser, no builder, hence none of their nesting rules.
-    Supports lets, one register, maps, gates, blocks, loops and subcircuit blocks (no macros)."""
+    Supports lets, one register, maps, gates, blocks, loops and subcircuit blocks (no macros).
+    With a seed two more liberties of hand-made circuits are taken at random: a sequential block may be an
+    UnscheduledBlockStatement (a subclass that everything but the scheduler treats as an ordinary block), and statements
+    that are written alike may be ONE object placed at several positions."""
     from jaqalpaq.core import Circuit, Register, Constant, BlockStatement, LoopStatement, GateDefinition, Parameter, ParamType
+    from jaqalpaq.core.block import UnscheduledBlockStatement
 
+    rng = random.Random(seed)
+    share = seed is not None and rng.random() < 0.5
+    shared = {}
+    stats = {"unscheduled": 0, "shared": 0}
     c = Circuit(native_gates=native)
     names = {}
 
@@ -70,10 +78,22 @@ def assemble_from_objects(prog, native=None):
         return val(a)
 
     def stmt(s):
+        if share and s[0] != "gate":
+            if s in shared:
+                stats["shared"] += 1
+                return shared[s]
+            shared[s] = out = stmt1(s)
+            return out
+        return stmt1(s)
+
+    def stmt1(s):
         k = s[0]
         if k == "gate":
             return gate_def(s[1], len(s) - 2)(*[arg(a) for a in s[2:]])
         if k == "sequential_block":
+            if seed is not None and rng.random() < 0.3:
+                stats["unscheduled"] += 1
+                return UnscheduledBlockStatement(parallel=False, statements=[stmt(x) for x in s[1:]])
             return BlockStatement(parallel=False, statements=[stmt(x) for x in s[1:]])
         if k == "parallel_block":
             return BlockStatement(parallel=True, statements=[stmt(x) for x in s[1:]])
@@ -104,7 +124,12 @@ def assemble_from_objects(prog, native=None):
             raise ValueError("cannot assemble %r" % (k,))
         else:
             c.body.statements.append(stmt(s))
+    ASSEMBLE_STATS["unscheduled"] += stats["unscheduled"]
+    ASSEMBLE_STATS["shared"] += stats["shared"]
     return c
+
+
+ASSEMBLE_STATS = {"unscheduled": 0, "shared": 0}
 
 
 def fuse_parallel_subcircuits(c):
